@@ -59,6 +59,10 @@ class FragCheck:
                 out["notes"].append({"watchdog": "case exceeded %ds" % self.case_timeout, "src": src[:3000]})
         finally:
             signal.alarm(0)
+        self._since_release = getattr(self, "_since_release", 0) + 1
+        if self._since_release >= 8:
+            self._since_release = 0
+            common.release_tealer_caches()
 
     def _one(self, prog, version, feats, rng, ctr, out, tier, stratum):
         cap = self.cap[0] if tier == "quick" else self.cap[1]
